@@ -13,6 +13,7 @@ import EdzedProofs.IntervalText
 import EdzedProofs.IntervalTables
 import EdzedProofs.IntervalString
 import EdzedProofs.IntervalNotations
+import EdzedProofs.IntervalTie
 import EdzedModel.Gen.Constants
 import EdzedModel.Gen.Translated
 
@@ -551,5 +552,91 @@ theorem translated_membership_is_model :
     (∀ lo x hi, Gen.Tr.cmpClosed Interval.lt Interval.le lo x hi = Interval.cmpClosed lo x hi) ∧
     (∀ lo x hi, Gen.Tr.cmpNoWrap Interval.lt Interval.le lo x hi = Interval.cmpNoWrap lo x hi) :=
   ⟨fun _ _ _ => rfl, fun _ _ _ => rfl, fun _ _ _ => rfl⟩
+
+/-! ### tie by translation of the control flow of parsing, normalising and rendering
+
+`Gen.TrIv.*` (EdzedModel/Gen/TranslatedInterval.lean) is regenerated on every run by tools/py2lean_interval.py
+from the Python text of `_match_pattern`, `_name_to_month`, `_convert_str`, the `convert_*` functions,
+`date_to_string` and the methods of `_Interval`; statement order, conditions, loops, `try/except` and the class
+attribute tables come from the AST.  The primitives (regular-expression search, `fromisoformat`, `strptime`,
+the `datetime` constructors, `str.split/strip/capitalize`, `int`, `sorted`) are instantiated with the model's
+matchers and library functions (`IntervalTie.modelPrims`); `tzAware` is the one behaviour of
+`datetime.fromisoformat` the model leaves open.  `Refines m t`: the model declares the input outside its
+domain (`unsupported`) or the translated code computes exactly the model's result. -/
+open Edzed.Interval Edzed.Gen.TrIv Edzed.IntervalTie in
+/-- `_match_pattern` = the model's leftmost search and removal of the matched part (start / end / middle) -/
+theorem translated_interval_match_pattern_is_model (tzAware : Bool) (s : List Char) (re : Re) (msg : Option Unit) :
+    match_pattern (modelPrims tzAware) s re msg =
+      match search (matcher re) s with
+      | some (s', g) => .ok (s', some g)
+      | none => if msg.isSome then .err .value else .ok (s, none) := match_pattern_eq tzAware s re msg
+
+open Edzed.Interval Edzed.Gen.TrIv Edzed.IntervalTie in
+/-- `_name_to_month` = the model's `nameToMonth` (first month from index 1 whose name starts with the capitalised text) -/
+theorem translated_interval_name_to_month_is_model (tzAware : Bool) (name : List Char) :
+    name_to_month (modelPrims tzAware) name =
+      match nameToMonth name with
+      | some j => .ok (j : Int)
+      | none => .err .value := name_to_month_eq tzAware name
+
+open Edzed.Interval Edzed.Gen.TrIv Edzed.IntervalTie in
+/-- `_convert_str` for dates and for date-times = the model's parsers: time first, then Y-M-D or year, then
+    `--MMDD` or month and day, what each branch does with the groups, the "missing …" errors, the leftover check
+    and the final constructor call -/
+theorem translated_interval_convert_str_is_model (tzAware : Bool) (s : List Char) :
+    convert_str (modelPrims tzAware) s false = convertDateCore s ∧
+    convert_str (modelPrims tzAware) s true = convertDateTimeCore s :=
+  ⟨convert_str_date_eq tzAware s, convert_str_datetime_eq tzAware s⟩
+
+open Edzed.Interval Edzed.Gen.TrIv Edzed.IntervalTie in
+/-- the string converters of the three classes: `convert_time_str` (ISO fast path, zone refused, the four
+    `strptime` formats in order), `convert_date_str`, `convert_datetime_str` (ISO fast path only with a `T`,
+    fall back to `_convert_str` after a ValueError) -/
+theorem translated_interval_string_converters_are_model (tzAware : Bool) (k : Interval.Kind) (s : List Char) :
+    Refines (convertStr k s) (convertStrOf (modelPrims tzAware) k s) ∧
+    convert_time_str (modelPrims tzAware) s = convertTimeStr s ∧
+    convert_date_str (modelPrims tzAware) s = convertDateStr s ∧
+    Refines (convertDateTimeStr s) (convert_datetime_str (modelPrims tzAware) s) :=
+  ⟨convertStrOf_refines tzAware k s, convert_time_str_eq tzAware s, convert_date_str_eq tzAware s,
+   convert_datetime_str_refines tzAware s⟩
+
+open Edzed.Interval Edzed.Gen.TrIv Edzed.IntervalTie in
+/-- the sequence converters (length checks, constructor) and the class attribute tables -/
+theorem translated_interval_sequence_converters_are_model (tzAware : Bool) (k : Interval.Kind) (l : List Int) :
+    convertSeqOf (modelPrims tzAware) k l = convertSeq k l ∧ Gen.TrIv.rclosed k = Interval.rclosed k :=
+  ⟨convertSeqOf_eq tzAware k l, rclosed_eq k⟩
+
+open Edzed.Interval Edzed.Gen.TrIv Edzed.IntervalTie in
+/-- `_Interval._convert` and `_parse_range`: the separators of `_RANGE_SEPARATORS` tried in order with
+    `len(parts) == 2`, the single value only for right-closed intervals, sequences of two (or one) endpoints,
+    TypeError otherwise -/
+theorem translated_interval_parse_range_is_model (tzAware : Bool) (k : Interval.Kind) (r : RangeIn) (x : EpIn) :
+    Refines (parseRange k r) (parse_range (modelPrims tzAware) k r) ∧
+    Refines (convert k x) (interval_convert (modelPrims tzAware) k x
+      (convertStrOf (modelPrims tzAware) k) (convertSeqOf (modelPrims tzAware) k)) :=
+  ⟨parse_range_refines tzAware k r, interval_convert_refines tzAware k x⟩
+
+open Edzed.Interval Edzed.Gen.TrIv Edzed.IntervalTie in
+/-- `_Interval.__init__`: the choice of the delimiter, the split, the removal of a blank last piece, every
+    range parsed in order, the result sorted (the whole `(start, stop)` tuples) -/
+theorem translated_interval_init_is_model (tzAware : Bool) (k : Interval.Kind) (spec : IvIn) :
+    Refines (parseInterval k spec) (interval_init (modelPrims tzAware) k spec) :=
+  interval_init_refines tzAware k spec
+
+open Edzed.Interval Edzed.Gen.TrIv Edzed.IntervalTie in
+/-- `__contains__` / `_cmp`: `any` over the ranges of the closed or open comparison chosen by
+    `_RCLOSED_INTERVAL`, with `DateTimeInterval`'s own `_cmp_open` (together with
+    `translated_membership_is_model`) -/
+theorem translated_interval_contains_is_model (k : Interval.Kind) (iv : List Range) (x : Ep) :
+    interval_contains k iv x = Interval.contains k iv x := interval_contains_eq k iv x
+
+open Edzed.Interval Edzed.Gen.TrIv Edzed.IntervalTie in
+/-- `as_list`, `_range_string`, `as_string` (and `date_to_string`) = the model's renderer, for every interval
+    in normal form -/
+theorem translated_interval_rendering_is_model (tzAware : Bool) (k : Interval.Kind) (iv : List Range)
+    (hv : ∀ r ∈ iv, validEp k r.1 = true ∧ validEp k r.2 = true) :
+    Gen.TrIv.as_string (modelPrims tzAware) k iv = asString k iv ∧
+    Gen.TrIv.as_list (modelPrims tzAware) k iv = (asList iv).map fun r => r.map fun e => e.map Int.ofNat :=
+  ⟨as_string_eq tzAware k iv hv, as_list_eq tzAware k iv⟩
 
 end Edzed.TrTie
